@@ -205,7 +205,7 @@ Proof.
   destruct it as [|v|sub|ts asp].
   - discriminate.
   - apply pair_b_sound, Hb2.
-  - apply andb_true_iff in Hb2 as [Hs Hf]. split; [apply Hkv, Hs|]. destruct (t_dotted sub); [exact Hf|]. apply orb_true_iff in Hf. exact Hf.
+  - apply andb_true_iff in Hb2 as [Hs Hf]. split; [apply Hkv, Hs|]. destruct (t_dotted sub); apply orb_true_iff in Hf; exact Hf.
   - apply andb_true_iff in Hb2 as [Hne Hts]. split; [destruct ts; [discriminate|discriminate]|].
     refine (forallb_all_P _ _ _ _ Hts). eapply Forall_impl; [|exact Hkv]. intros e He Hb. apply andb_true_iff in Hb as [Hd Hw].
     split; [apply negb_true_iff, Hd|apply He, Hw].
